@@ -210,13 +210,13 @@ CHECKS = {
                      "arrow_array::ffi::{to_ffi, from_ffi}, arrow_data::ffi::FFI_ArrowArray, arrow_schema::ffi::FFI_ArrowSchema (release callbacks are Rust, so Miri executes them)",
                      "arrow_array::ffi_stream::{FFI_ArrowArrayStream, ArrowArrayStreamReader} (stage 1: arrays moved into a stream, exported, imported, drained)"],
             "stub": ["the memory owner (custom Allocation with release counter, 0xDD scribble and quarantine)", "the foreign consumer of exported structs (another handle / another thread)", "stage 2: Miri's interpreter-owned scheduler"],
-            "not_run": ["binary in-place kernels (arrow_arith::arity::binary_mut)", "GenericByteArray::into_builder", "shuttle (std Arc has no scheduling points: API-granularity interleaving equals the single-threaded histories of stage 1)"],
+            "not_run": ["GenericByteArray::into_builder", "shuttle (std Arc has no scheduling points: API-granularity interleaving equals the single-threaded histories of stage 1)"],
         },
         "level_text": "seeded exploration of ownership histories against an executable region model checked after every step (single caller thread, millions of histories), plus seeded instruction-level "
                       "interleavings of several caller threads under the Miri interpreter with its race / use-after-free / double-free / leak detection; sampling, not proof",
         "design_ref": "DESIGN.md section 4 (C16), sections 11 and 12",
         "level_note": "in-place success is only accepted when the model says the handle was unique, zero-offset and natively allocated (declining is always accepted); pool accounting of a region that went through an in-place "
-                      "kernel is not predicted (only a lower bound is checked); binary in-place kernels are not exercised; the C Stream Interface only in stage 1; Miri runs cover small scenarios (2-3 threads, 8-19 ops each); "
+                      "kernel is not predicted (only a lower bound is checked); binary in-place kernels (binary_mut / try_binary_mut, right operand = peer handle, alias of the left operand, or harness memory) are exercised in stage 1 only; the C Stream Interface only in stage 1; Miri runs cover small scenarios (2-3 threads, 8-19 ops each); "
                       "trusted: in-tree simulator, the region model, Miri",
         "technique": "deterministic simulation: seeded operation histories over a pool of handles against a reference model (stage 1); seeded thread interleavings owned by the Miri interpreter with replay by (-Zmiri-seed, workload seed) (stage 2)",
         "assumptions": TRUSTED + [
